@@ -119,6 +119,13 @@ CHECKS = {
         note="Degenerate correlation rows (0/0) skipped and counted; inputs up to 30 experiments x 12 samples.",
         technique="differential against loop-based reference implementations",
     ),
+    "C18": dict(
+        cat="exploration",
+        text="Every randomised operation named in the property is executed twice with identical inputs and an identically seeded generator; run A is bracketed by snapshots of numpy's and Python's global random state; between the runs the globals are reseeded differently and during run B unrelated global draws are injected at line granularity (sys.monitoring LINE events restricted to batchie's code); outputs compared through bytes / loaded h5 content; CLI mains with --seed run in-process, thorough repeats them as fresh subprocesses under two PYTHONHASHSEED values.",
+        ref="4/C18",
+        note="Determinism is decided on the sampled inputs and seeds; injection granularity is one Python line of batchie code.",
+        technique="differential (run twice) monitor + global-RNG state snapshots + line-granular injection of unrelated global draws",
+    ),
 }
 
 NOT_BUILT_REASON = "check not built yet in this revision (planned, see DESIGN.md section 4)"
